@@ -389,7 +389,7 @@ def hang_variants(tier: str) -> list[dict]:
     async runner's timeout is ATimeout ticks of the virtual clock its event loop reads (no real
     waiting); the sync runner waits for its worker thread in real time, hence the sampling."""
     at = 2 * retryenv.vtime.TICK
-    k = 1 if tier == "quick" else 2
+    k = 1          # (the thorough configuration exports ten times as many behaviours: same density)
     return [{"entry": "AsyncRetry", "loop": True, "hang": at, "async_callbacks": True},
             {"entry": "AsyncPolicy", "loop": True, "hang": at, "place": "both", "every": 2},
             {"entry": "AsyncRetryPolicy", "loop": True, "hang": at, "place": "ctor", "every": 3, "permute": True},
